@@ -264,6 +264,8 @@ fn storage_flat(p: *const ()) -> String {
 runner!(run_flat, flat, true);
 runner!(run_boxed, boxed, false);
 
+include!("../inc/resalloc.rs");
+
 fn main() {
     let args: Vec<String> = std::env::args().collect();
     if args.len() >= 2 && args[1] == "--shapes" {
@@ -304,6 +306,8 @@ fn main() {
         let case: Value = serde_json::from_str(line).expect("bad case json");
         println!(r#"{{"e":"qcase","name":{},"idx":{}}}"#, case["case"], idx);
         for which in ["flat", "boxed"] {
+            // where the next buffers land modulo 128 (same sequence for both implementations)
+            set_alloc_residues(&case["bases"]);
             let log: Log = Rc::new(RefCell::new(Vec::new()));
             ZLOG.with(|z| *z.borrow_mut() = Some(log.clone()));
             println!(r#"{{"e":"qimpl","which":"{}"}}"#, which);
